@@ -39,6 +39,7 @@ type Violation struct {
 	API    string      `json:"api"`
 	Msg    string      `json:"msg"`
 	Detail interface{} `json:"detail,omitempty"`
+	Also   string      `json:"also_run,omitempty"` // second run of a cross-process comparison
 }
 
 type BatchResult struct {
